@@ -169,6 +169,11 @@ func c07Inflated(c *fw.Ctx) []byte {
 	doc := append(pre, body...)
 	doc = append(doc, gen.RandBytes(r, r.Intn(8))...)
 	if r.Intn(3) == 0 {
+		// real payload behind the lying length, so that the reader's buffer fills up once or several times before the input ends
+		n := []int{100, 126, 127, 128, 129, 200, 255, 256, 1000, 5000, 70000}[r.Intn(11)]
+		doc = append(append(pre[:2:2], body...), bytes.Repeat([]byte{'a'}, n)...)
+	}
+	if r.Intn(3) == 0 {
 		doc = append([]byte{0x81, 0x00, 0x9a}, append(body, 0x9b)...)
 	}
 	return doc
